@@ -78,6 +78,8 @@ export function makeCases(ctx, n, genOpts = {}, fixedSeeds = null) {
     const st = { rng: r, spacing: r.bool(0.5), redundant: r.bool(0.3) ? 0.1 : 0, entities: r.bool(0.4) ? 0.15 : 0, layout: r.bool(0.5), between: true, shuffleAttrs: r.bool(0.5), unquoted: true, noNewline: false }
     let sources
     try { sources = printFileSet(fs_, st) } catch (e) { if (/adjacent text/.test(e.message)) { report.count('model_rejects'); continue } throw e }
+    // (a byte order mark in front of a file is an artefact of its encoding, not a text node)
+    if (caseSeed % 37 === 5) sources = sources.map(([p, s]) => [p, '\ufeff' + s])
     const datas = [makeData(r), makeData(r), makeData(r)]
     const refs = datas.map((D) => { try { return referenceFor(fs_, D, (caseSeed & 1) === 1) } catch (e) { return null } })
     if (refs.every((x) => x === null)) { report.count('reference_throws_skipped'); continue }
